@@ -187,36 +187,47 @@ def finishFrame (P : Params) (m : Machine) (f : Frame) (rest : List Frame) (res 
     readOnly := if f.setRO then false else m.readOnly,
     result := if rest.isEmpty then some (res', g'') else none }
 
+/-- the frame record created by `NewContract` + `Snapshot()` -/
+def newFrame (m : Machine) (k : Kind) (gas : Nat) : Frame :=
+  { kind := k, gas := gas, snap := m.journal.length,
+    setRO := (k = .staticCall ∧ m.readOnly = false), supplied := gas, entry := m.journal }
+
+/-- `run(evm, contract, input)` and the handling of its result: a callee with code becomes a new
+    interpreter frame; a precompile or a callee without code finishes at once. -/
+def runCallee (P : Params) (m' : Machine) (f : Frame) (parents : List Frame) (gas : Nat) (callee : Callee) : Machine :=
+  match callee with
+  | .code => { m' with frames := f :: parents }
+  | .pre req ok w =>
+    if gas < req then finishFrame P m' f parents .failed 0 0                    -- ErrOutOfGas
+    else if ok then finishFrame P { m' with journal := m'.journal ++ List.replicate w .write } f parents .ok (gas - req) 0
+    else finishFrame P m' f parents .failed (gas - req) 0
+  | _ => finishFrame P m' f parents .ok gas 0                                   -- no code: Run returns at once
+
+/-- journal after `evm.Transfer`: CALL and CREATE always execute it, even for a zero value -/
+def transferJournal (k : Kind) (value : Bool) (j : List Entry) : List Entry :=
+  if k = .call ∨ k = .create then j ++ [.transfer value, .transfer value] else j
+
+/-- `evm.Create` after the depth and balance checks -/
+def enterCreate (P : Params) (m : Machine) (gas : Nat) (value : Bool) (callee : Callee) : Machine :=
+  if callee = .collision then giveBack m .failed 0                              -- all gas is lost
+  else runCallee P { m with journal := transferJournal .create value m.journal } (newFrame m .create gas) m.frames gas
+        (if callee = .code then .code else .empty)
+
+/-- `evm.Call / CallCode / DelegateCall / StaticCall` after the depth and balance checks -/
+def enterCall (P : Params) (m : Machine) (k : Kind) (gas : Nat) (value : Bool) (callee : Callee) : Machine :=
+  if callee = .loadFail then giveBack m .failed gas
+  else if k = .call ∧ callee = .empty ∧ value = false then giveBack m .ok gas
+  else runCallee P { m with journal := transferJournal k value m.journal,
+                            readOnly := m.readOnly || (k = .staticCall) } (newFrame m k gas) m.frames gas callee
+
 /-- `evm.Call / CallCode / DelegateCall / StaticCall / Create` up to the point where the callee's
     code starts running (or the call returns without running code). The caller's frame has already
     paid; `gas` is what the callee gets. -/
 def enter (P : Params) (m : Machine) (k : Kind) (gas : Nat) (value canTransfer : Bool) (callee : Callee) : Machine :=
   if m.frames.length > P.callCreateDepth then giveBack m .failed gas           -- ErrDepth
   else if (k = .call ∨ k = .callCode ∨ k = .create) ∧ canTransfer = false then giveBack m .failed gas
-  else match k with
-    | .create =>
-      if callee = .collision then giveBack m .failed 0                          -- all gas is lost
-      else
-        let f : Frame := { kind := .create, gas := gas, snap := m.journal.length, setRO := false,
-                           supplied := gas, entry := m.journal }
-        let m' := { m with journal := m.journal ++ [.transfer value, .transfer value] }
-        if callee = .code then { m' with frames := f :: m.frames }
-        else finishFrame P m' f m.frames .ok gas 0                              -- empty init code
-    | _ =>
-      if callee = .loadFail then giveBack m .failed gas
-      else if k = .call ∧ callee = .empty ∧ value = false then giveBack m .ok gas
-      else
-        let f : Frame := { kind := k, gas := gas, snap := m.journal.length,
-                           setRO := (k = .staticCall ∧ m.readOnly = false), supplied := gas, entry := m.journal }
-        let m' := { m with journal := if k = .call then m.journal ++ [.transfer value, .transfer value] else m.journal,
-                           readOnly := m.readOnly || (k = .staticCall) }
-        match callee with
-        | .code => { m' with frames := f :: m.frames }
-        | .pre req ok w =>
-          if gas < req then finishFrame P m' f m.frames .failed 0 0
-          else if ok then finishFrame P { m' with journal := m'.journal ++ List.replicate w .write } f m.frames .ok (gas - req) 0
-          else finishFrame P m' f m.frames .failed (gas - req) 0
-        | _ => finishFrame P m' f m.frames .ok gas 0                            -- no code: Run returns at once
+  else if k = .create then enterCreate P m gas value callee
+  else enterCall P m k gas value callee
 
 inductive Verdict where
   | invalid | underflow | overflow | writeProt | gasOverflow | oog | ok
@@ -224,6 +235,17 @@ inductive Verdict where
 
 /-- value-transfer surcharge and stipend apply to CALL and CALLCODE with a non-zero value -/
 def withValue (k : Kind) (c : Choice) : Bool := c.value && (k = .call || k = .callCode)
+
+/-- gas stage of CALL / CALLCODE / DELEGATECALL / STATICCALL (gasCall* + UseGas, then opCall*'s stipend):
+    `base` = constant + value surcharge + dynamic part; `callGas` gives the callee's share. -/
+def preCall (P : Params) (minGas gas : Nat) (wv : Bool) (extra req : Nat) : Except Verdict (Nat × Nat) :=
+  let base := minGas + (if wv then P.callValueTransferGas else 0) + extra
+  match callGas P gas base req with
+  | none => .error .oog                                   -- errGasUintOverflow → ErrOutOfGas
+  | some temp =>
+    if base + temp ≥ u64 then .error .oog                 -- SafeAdd overflow
+    else if gas < base + temp then .error .oog            -- UseGas fails
+    else .ok (gas - (base + temp), temp + (if wv then P.callStipend else 0))
 
 /-- the part of `Interpreter.Run` before `execute`: either a verdict that ends the frame, or
     (gas left after `UseGas`, gas handed to the callee). -/
@@ -247,15 +269,7 @@ def pre (T : Table) (readOnly : Bool) (gas : Nat) (c : Choice) : Except Verdict 
         let g := gas - cost
         let child := g - g / 64
         .ok (g - child, child)
-    | some k =>
-      let base := info.minGas + (if withValue k c then P.callValueTransferGas else 0) + c.extra
-      match callGas P gas base c.reqGas with
-      | none => .error .oog
-      | some temp =>
-        let cost := base + temp
-        if cost ≥ u64 then .error .oog
-        else if gas < cost then .error .oog
-        else .ok (gas - cost, temp + (if withValue k c then P.callStipend else 0))
+    | some k => preCall P info.minGas gas (withValue k c) c.extra c.reqGas
 
 /-- one iteration of the interpreter loop of the innermost frame -/
 def step (T : Table) (m : Machine) (c : Choice) : Machine :=
